@@ -575,6 +575,23 @@ class Shared final : public vf::Family {
     if (cx.raced > 0) {
       v.tags.push_back("op-while-other-callback-registered");
     }
+    {
+      unsigned ops_seen = 0;
+      for (std::size_t i = 0; i < c.Records(); ++i) {
+        ops_seen |= 1u << (c.Rec(i)[1] % kObsN);
+      }
+      for (int o = 0; o < kObsN; ++o) {
+        if ((ops_seen >> o) & 1u) {
+          v.tags.push_back(vf::Intern(std::string("op:") + kObsName[o]));
+        }
+      }
+      if (c.H(2) / 2 % 2 == 1) {
+        v.tags.push_back("first-Set-throws");
+      }
+      if (c.H(3) % 8 != 0) {
+        v.tags.push_back("Split/Share/Connect-through-the-SharedPromise");
+      }
+    }
     char b[96];
     std::snprintf(b, sizeof b, "callbacks=%d switches=%u", cx.expected, ex.switches);
     v.detail = b;
